@@ -113,6 +113,15 @@ func checkCmd(args []string) int {
 		}
 		cr.CheckResponses(entries)
 		return cr.Finish("proof", checkerCmd, commonTrusted, "per operation: sealing (go/types method sets), and for every type satisfying the response interface the Write / write<Op> contracts of the documented response it serves (header view, body view of the event trace), all response values")
+	case "C10":
+		entries := vc.FixtureCorpus(*repo, "response_component", "response_header", "response_default", "response_schema", "octet_stream", "components", "petstore")
+		entries = append(entries, vc.ResponseCorpus(corpusDir)...)
+		if *tier != "quick" {
+			entries = vc.FixtureCorpus(*repo)
+			entries = append(entries, vc.ResponseCorpus(corpusDir)...)
+		}
+		cr.CheckClients(entries)
+		return cr.Finish("proof", checkerCmd, commonTrusted, "one obligation per (Client.<Op> return site, clause): response kind by status code (symbolic status), undocumented codes, default code, raw bodies left open; the status-to-type binding is the one proved on the server side (C02 contracts)")
 	case "C14":
 		entries := vc.FixtureCorpus(*repo, "get_params", "router", "security_jwt_apikey_query", "response_header", "response_component", "json", "request_body")
 		if *tier != "quick" {
